@@ -134,6 +134,39 @@ func vbBalanced(sh vbShape, plan BalanceStrategyPlan) error {
 	return nil
 }
 
+// vbNoSwap: between two consecutive plans no two members exchange partitions of one topic (a -> b and b -> a).
+func vbNoSwap(prev, next BalanceStrategyPlan) error {
+	owner := func(plan BalanceStrategyPlan) map[string]map[int32]string {
+		o := map[string]map[int32]string{}
+		for id, byTopic := range plan {
+			for topic, parts := range byTopic {
+				if o[topic] == nil {
+					o[topic] = map[int32]string{}
+				}
+				for _, p := range parts {
+					o[topic][p] = id
+				}
+			}
+		}
+		return o
+	}
+	before, after := owner(prev), owner(next)
+	for topic, parts := range before {
+		moved := map[[2]string][]int32{}
+		for p, a := range parts {
+			if b, ok := after[topic][p]; ok && b != a {
+				moved[[2]string{a, b}] = append(moved[[2]string{a, b}], p)
+			}
+		}
+		for k, ps := range moved {
+			if qs, ok := moved[[2]string{k[1], k[0]}]; ok {
+				return fmt.Errorf("topic %s: partitions %v moved %s -> %s while partitions %v moved %s -> %s", topic, ps, k[0], k[1], qs, k[1], k[0])
+			}
+		}
+	}
+	return nil
+}
+
 func vbPlanKey(plan BalanceStrategyPlan) string {
 	var out []string
 	for m, byTopic := range plan {
@@ -183,7 +216,7 @@ func vbSubsets(topics []string) [][]string {
 }
 
 func TestVerifBoundedSticky(t *testing.T) {
-	maxMembers, maxParts, reps := 3, 3, 3
+	maxMembers, maxParts, reps := 3, 4, 3
 	if os.Getenv("VERIF_TIER") == "thorough" {
 		maxMembers, maxParts, reps = 4, 4, 8
 	}
@@ -291,6 +324,9 @@ func vbRunShape(t *testing.T, subs [][]string, topics map[string][]int32, casesp
 						if err := vbBalanced(sh3, plan3); err != nil {
 							fail("C13", "balanced (member left)", sh3, err)
 						}
+						if err := vbNoSwap(plan2, plan3); err != nil {
+							fail("C13", "sticky: no pairwise swap within a topic (member left)", sh3, fmt.Errorf("%v: %s -> %s", err, vbPlanKey(plan2), vbPlanKey(plan3)))
+						}
 						identical := true
 						for _, ts := range subs {
 							if strings.Join(ts, ",") != strings.Join(subs[0], ",") {
@@ -342,6 +378,9 @@ func vbRunShape(t *testing.T, subs [][]string, topics map[string][]int32, casesp
 							if err := vbBalanced(sh5, plan5); err != nil {
 								fail("C13", "balanced (partitions removed)", sh5, err)
 							}
+							if err := vbNoSwap(plan2, plan5); err != nil {
+								fail("C13", "sticky: no pairwise swap within a topic (partitions removed)", sh5, fmt.Errorf("%v: %s -> %s", err, vbPlanKey(plan2), vbPlanKey(plan5)))
+							}
 						}
 					}
 					// round 3c: the first member drops its first topic (when it has two); the previous plan is fed back
@@ -360,6 +399,9 @@ func vbRunShape(t *testing.T, subs [][]string, topics map[string][]int32, casesp
 						}
 						if err := vbValid(sh6, plan6); err != nil {
 							fail("C08", "valid (subscription dropped, stale user data)", sh6, err)
+						}
+						if err := vbNoSwap(plan2, plan6); err != nil {
+							fail("C13", "sticky: no pairwise swap within a topic (subscription dropped)", sh6, fmt.Errorf("%v: %s -> %s", err, vbPlanKey(plan2), vbPlanKey(plan6)))
 						}
 					}
 					// round 3d: the last member joins a group formed by the others: plan for the others first, feed that
@@ -388,6 +430,9 @@ func vbRunShape(t *testing.T, subs [][]string, topics map[string][]int32, casesp
 						if err := vbBalanced(sh, planJoin); err != nil {
 							fail("C13", "balanced (member joined)", sh, err)
 						}
+						if err := vbNoSwap(planOld, planJoin); err != nil {
+							fail("C13", "sticky: no pairwise swap within a topic (member joined)", sh, fmt.Errorf("%v: %s -> %s", err, vbPlanKey(planOld), vbPlanKey(planJoin)))
+						}
 						identical := true
 						for _, ts := range subs {
 							if strings.Join(ts, ",") != strings.Join(subs[0], ",") {
@@ -412,6 +457,48 @@ func vbRunShape(t *testing.T, subs [][]string, topics map[string][]int32, casesp
 									}
 								}
 							}
+						}
+					}
+					// round 3e: an arbitrary (skewed, possibly unbalanced) previous assignment, as other members or an older
+					// generation may report it: per topic the first half of the partitions belongs to the topic's first
+					// subscriber, the rest to its last subscriber; in the second pattern the first partition of every topic
+					// has no owner; the last member of the group reports nothing (it is new). The plan must be valid and must
+					// not swap partitions of a topic between two members.
+					for pattern := 0; pattern < 2 && len(subs) > 1; pattern++ {
+						prev := BalanceStrategyPlan{}
+						for tn, parts := range sh.topics {
+							var subscribers []string
+							for i, ts := range subs[:len(subs)-1] {
+								for _, x := range ts {
+									if x == tn {
+										subscribers = append(subscribers, vbMemberID(i))
+									}
+								}
+							}
+							if len(subscribers) == 0 {
+								continue
+							}
+							for j, pnum := range parts {
+								if pattern == 1 && j == 0 {
+									continue
+								}
+								who := subscribers[0]
+								if j >= len(parts)/2 {
+									who = subscribers[len(subscribers)-1]
+								}
+								prev.Add(who, tn, pnum)
+							}
+						}
+						planS, err := BalanceStrategySticky.Plan(vbMembers(sh, prev, 3, t), sh.topics)
+						if err != nil {
+							fail("C08", "plan (skewed previous assignment)", sh, err)
+							return
+						}
+						if err := vbValid(sh, planS); err != nil {
+							fail("C08", "valid (skewed previous assignment)", sh, err)
+						}
+						if err := vbNoSwap(prev, planS); err != nil {
+							fail("C13", "sticky: no pairwise swap within a topic (skewed previous assignment)", sh, fmt.Errorf("%v: %s -> %s", err, vbPlanKey(prev), vbPlanKey(planS)))
 						}
 					}
 					// round 4: conflicting user data (every member claims the whole first plan, same generation)
